@@ -188,6 +188,22 @@ def run(chk):
     _, srun = repo.method('Server', 'run', 'C20.R2')
     ext = [n for n in ast.walk(srun) if isinstance(n, (ast.Assign, ast.AugAssign)) and any(isinstance(t, ast.Subscript) and ast.unparse(t.value) == 'team_names'
                                                                                        for t in (n.targets if isinstance(n, ast.Assign) else [n.target]))]
+    # the seat table belongs to ONE session: it is created, all seats free, inside Server.run
+    tcalls = [n for n in ast.walk(srun) if isinstance(n, ast.Call) and isinstance(n.func, ast.Name) and n.func.id == 'PlayerThread']
+    if len(tcalls) == 1:
+        kwv = next((k.value for k in tcalls[0].keywords if k.arg == 'team_names'), None)
+        src = kwv
+        if isinstance(kwv, ast.Name):
+            defs = [n for n in ast.walk(srun) if isinstance(n, (ast.Assign, ast.AnnAssign)) and
+                    any(isinstance(t, ast.Name) and t.id == kwv.id for t in (n.targets if isinstance(n, ast.Assign) else [n.target]))]
+            src = defs[0].value if len(defs) == 1 else None
+        fresh = isinstance(src, (ast.Dict, ast.DictComp)) and all(isinstance(v, ast.Constant) and v.value is None for v in (src.values if isinstance(src, ast.Dict) else [src.value]))
+        if src is None or not (fresh or isinstance(src, ast.Attribute)):
+            raise AnalysisError('C20.R2', 'Server.run', 'cannot trace the seat table handed to PlayerThread to its creation')
+        chk.require(fresh, 'C20.R2', repo.where(repo.cls('Server').module, tcalls[0]), 'Server.run', f'seat table handed to the connection threads is `{ast.unparse(src)[:40]}`',
+                    'the seat table is created with all seats free at the start of Server.run',
+                    f'the seat table is `{ast.unparse(src)[:60]}`, an object that outlives the session: a second run() on the same Server starts with every seat still '
+                    f'taken, skips admission and answers no connection request')
     chk.require(not ext, 'C20.R2', w_c, 'Server.run', 'Server.run writes the seat table', 'the main thread only reads the seat table', 'Server.run modifies the seat table')
 
     # ---- R3 ------------------------------------------------------------------------------------------------------------------
